@@ -3,7 +3,7 @@
    Contents
    A. framing: the whole-stream reference decoder of CodecReadP (built on header_parse) cuts a well-formed
       byte stream exactly as the declarative rfc_frames does
-   B. one frame: post_frame + on_frame (= read_message_frame after read_frame_loop) is one rfc_step
+   B. one frame: post_frame + Utf8P.on_frame (= read_message_frame after read_frame_loop) is one rfc_step
    C. lifting: flush is invisible to the read side, read_loop, successive reads, run_ops
    D. corollaries per rule                                                                          *)
 From TungModel Require Import Base Coding Mask Header Frame Utf8 World Message Codec Protocol.
@@ -96,8 +96,7 @@ Lemma dropN_4 {A} (a b c d : A) (l : list A) : dropN 4 (a :: b :: c :: d :: l) =
 Proof. reflexivity. Qed.
 
 Section OneHeader.
-Variables (b0 b1 : N) (r : bytes) (opc : opcode).
-Hypothesis Eo : opcode_of_u8 (b0 mod 16) = Some opc.
+Context (b0 b1 : N) (r : bytes) (opc : opcode) (Eo : opcode_of_u8 (b0 mod 16) = Some opc).
 Let bs := b0 :: b1 :: r.
 Let mk (k : option key) (len : N) :=
   mkRawHeader (bitset b0 128) (bitset b0 64) (bitset b0 32) (bitset b0 16) (b0 mod 16) k len.
@@ -614,7 +613,7 @@ Definition model_frame (max : N) (x1 : ctx) (f : raw_frame) : res (option messag
   | None =>
       match post_frame (role_eqb (x_role x1) Server) (cfg_accept_unmasked (x_cfg x1))
                        (ROk (Some (hdr_of (rf_hdr f), rh_len (rf_hdr f), rf_payload f))) with
-      | ROk (Some fr) => on_frame x1 fr
+      | ROk (Some fr) => Utf8P.on_frame x1 fr
       | ROk None => (RErr (EProtocol ResetWithoutClosingHandshake), set_state x1 Terminated)
       | RErr e => (RErr e, x1)
       | RPanic s => (RPanic s, x1)
@@ -687,8 +686,8 @@ Proof.
                 | Some _ => VReject KProtocol
                 | None => rfc_fragment (cfg_max_message_size (x_cfg x1)) (if op =? 1 then KText else KBinary) data fin
                 end)
-      (on_frame x1 (mkFrame (mkHeader fin r1 r2 r3 (opc_of op) None) data))).
-  { intros data Hdl _. unfold on_frame.
+      (Utf8P.on_frame x1 (mkFrame (mkHeader fin r1 r2 r3 (opc_of op) None) data))).
+  { intros data Hdl _. unfold Utf8P.on_frame.
     cbn [f_hdr f_payload h_mask h_fin h_rsv1 h_rsv2 h_rsv3 h_opcode]. rewrite Hst. cbn [can_read negb].
     destruct (r1 || r2 || r3). { cbn [step_ok fst]. eexists. split; reflexivity. }
     rewrite andb_false_r.
@@ -741,7 +740,7 @@ Proof.
       * cbn [step_ok fst]. eexists. split; reflexivity.
   - (* client *)
     destruct key as [k|]; cbn [negb].
-    + unfold on_frame. cbn [f_hdr f_payload h_mask h_fin h_rsv1 h_rsv2 h_rsv3 h_opcode]. rewrite Hst, Hr.
+    + unfold Utf8P.on_frame. cbn [f_hdr f_payload h_mask h_fin h_rsv1 h_rsv2 h_rsv3 h_opcode]. rewrite Hst, Hr.
       cbn [can_read negb role_eqb andb].
       destruct (r1 || r2 || r3); cbn [step_ok fst]; eexists; split; reflexivity.
     + apply Hgoal; reflexivity.
@@ -1104,14 +1103,14 @@ Lemma rmf_active x w : x_state x = Active ->
                     (rfl_log (limit_of (cfg_max_frame_size (x_cfg x))) (w_rds w) (x_codec x) (w_log w)) in
   let x1 := set_state (set_codec x c') Active in
   match post_frame (role_eqb (x_role x) Server) (cfg_accept_unmasked (x_cfg x)) r with
-  | ROk (Some f) => let '(r2, x2) := on_frame x1 f in (r2, x2, w1)
+  | ROk (Some f) => let '(r2, x2) := Utf8P.on_frame x1 f in (r2, x2, w1)
   | ROk None => (RErr (EProtocol ResetWithoutClosingHandshake), set_state x1 Terminated, w1)
   | RErr e => (RErr e, x1, w1)
   | RPanic s => (RPanic s, x1, w1)
   | ROutOfFuel => (ROutOfFuel, x1, w1)
   end.
 Proof.
-  intros Hst. rewrite rmf_unfold, read_frame_eq.
+  intros Hst. rewrite Utf8P.rmf_unfold, read_frame_eq.
   destruct (rfl _ _ _) as [[r c'] rds']. rewrite Hst, check_reset_active.
   destruct (post_frame _ _ r) as [[f|]|e|s|]; reflexivity.
 Qed.
@@ -1241,7 +1240,7 @@ Definition Pm (x : ctx) (w : world) : nat := (pot (x_codec x) + rd_bytes (w_rds 
 Definition Mm (x : ctx) (w : world) : nat := mu (x_codec x) (w_rds w).
 
 Section Sim.
-Variables (rl : role) (cfg : config).
+Context (rl : role) (cfg : config).
 Let mfs := cfg_max_frame_size cfg.
 Let mms := cfg_max_message_size cfg.
 Let au := cfg_accept_unmasked cfg.
@@ -1304,7 +1303,7 @@ Proof.
     { unfold model_frame. rewrite Hck.
       change (x_role x1) with (x_role x). change (x_cfg x1) with (x_cfg x). rewrite Hr, Hc. fold au.
       cbv zeta in Em. destruct (post_frame (role_eqb rl Server) au _) as [[fr|]|e|s|].
-      - destruct (on_frame x1 fr) as [r2 x2]. injection Em as <- <- <-. auto.
+      - destruct (Utf8P.on_frame x1 fr) as [r2 x2]. injection Em as <- <- <-. auto.
       - injection Em as <- <- <-. auto.
       - injection Em as <- <- <-. auto.
       - injection Em as <- <- <-. auto.
@@ -1363,3 +1362,736 @@ Proof.
       exists e. auto.
 Qed.
 End Sim.
+
+(** ** C.7 one call of read *)
+
+Lemma outcome_of_reject e c : class_of e = Some c -> outcome_of (RErr e) = Some (OReject c).
+Proof.
+  destruct e as [| |k| sz mx |p|fr|]; cbn [class_of]; try discriminate.
+  - intros H. injection H as <-. reflexivity.
+  - destruct p; try discriminate; intros H; injection H as <-; reflexivity.
+  - intros H. injection H as <-. reflexivity.
+Qed.
+
+Definition spec_outcomes (rl : role) (cfg : config) : partial -> list raw_frame -> tail -> list outcome :=
+  rfc_outcomes rl (cfg_accept_unmasked cfg) (cfg_max_frame_size cfg) (cfg_max_message_size cfg).
+
+Definition loop_concl (rl : role) (cfg : config) (x : ctx) (w : world) (r : res message) (x' : ctx) (w' : world)
+           (a : partial) (fs : list raw_frame) (t : tail) : Prop :=
+  (r = RErr (EIo WouldBlock) /\
+   exists a' fs', Inv rl cfg x' w' a' fs' t /\
+     spec_outcomes rl cfg a fs t = spec_outcomes rl cfg a' fs' t /\ (Mm x' w' < Mm x w)%nat) \/
+  (exists m, r = ROk m /\ is_close m = false /\
+   exists a' fs', Inv rl cfg x' w' a' fs' t /\
+     spec_outcomes rl cfg a fs t = OMsg m :: spec_outcomes rl cfg a' fs' t /\ (Mm x' w' < Mm x w)%nat) \/
+  (exists o, outcome_of r = Some o /\ (forall m, r = ROk m -> is_close m = true) /\
+     spec_outcomes rl cfg a fs t = [o]).
+
+Lemma loop_concl_shift rl cfg x w x0 w0 r x' w' a fs t a0 fs0 :
+  spec_outcomes rl cfg a fs t = spec_outcomes rl cfg a0 fs0 t -> (Mm x0 w0 <= Mm x w)%nat ->
+  loop_concl rl cfg x0 w0 r x' w' a0 fs0 t -> loop_concl rl cfg x w r x' w' a fs t.
+Proof.
+  intros HE HM [[Hr [a' [fs' [Hi [He Hm]]]]]|[[m [Hr [Hc [a' [fs' [Hi [He Hm]]]]]]]|[o [Ho [Hc He]]]]].
+  - left. split; [exact Hr|]. exists a', fs'. split; [exact Hi|]. split; [congruence|lia].
+  - right; left. exists m. split; [exact Hr|]. split; [exact Hc|]. exists a', fs'.
+    split; [exact Hi|]. split; [congruence|lia].
+  - right; right. exists o. split; [exact Ho|]. split; [exact Hc|congruence].
+Qed.
+
+Lemma loop_sim rl cfg : forall fuel x w a fs t r x' w',
+  Inv rl cfg x w a fs t -> (Pm x w < fuel)%nat -> read_loop fuel x w = (r, x', w') ->
+  loop_concl rl cfg x w r x' w' a fs t.
+Proof.
+  induction fuel as [|fuel IH]; intros x w a fs t r x' w' HI HP EL; [lia|].
+  rewrite read_loop_eq in EL.
+  assert (Hst : x_state x = Active) by (destruct HI as [X _]; exact X).
+  assert (Hb : benign w) by (destruct HI as [_ [_ [_ [_ [_ [_ [X _]]]]]]]; exact X).
+  destruct (pre_read_rside x w Hst Hb) as [x0 [w0 [Ep R0]]]. rewrite Ep in EL.
+  destruct (Inv_rside rl cfg _ _ _ _ _ _ _ HI R0) as [HI0 [HP0 HM0]].
+  destruct (read_message_frame x0 w0) as [[rm x1] w1] eqn:Em.
+  assert (HM0' : (Mm x0 w0 <= Mm x w)%nat) by lia.
+  apply (loop_concl_shift rl cfg x w x0 w0 r x' w' a fs t a fs eq_refl HM0').
+  destruct (rmf_sim rl cfg _ _ _ _ _ _ _ _ HI0 Em) as [[-> [HI1 HM1]]|HC].
+  - injection EL as <- <- <-. left. split; [reflexivity|]. exists a, fs. auto.
+  - unfold frame_concl in HC. destruct fs as [|f fs'].
+    + right; right. unfold spec_outcomes. cbn [rfc_outcomes].
+      destruct (rfc_tail (cfg_max_frame_size cfg) t) as [c|].
+      * destruct HC as [e [-> Hc]]. injection EL as <- <- <-.
+        exists (OReject c). split; [apply outcome_of_reject; exact Hc|]. split; [discriminate|reflexivity].
+      * subst rm. injection EL as <- <- <-. exists OEnd. split; [reflexivity|]. split; [discriminate|reflexivity].
+    + pose proof (rfc_step_shape rl (cfg_accept_unmasked cfg) (cfg_max_frame_size cfg) (cfg_max_message_size cfg) a f) as Sh.
+      assert (HE : spec_outcomes rl cfg a (f :: fs') t =
+                   match rfc_step rl (cfg_accept_unmasked cfg) (cfg_max_frame_size cfg) (cfg_max_message_size cfg) a f with
+                   | VNext a' => spec_outcomes rl cfg a' fs' t
+                   | VDeliver m a' => OMsg m :: spec_outcomes rl cfg a' fs' t
+                   | VClose m => [OMsg m]
+                   | VReject c => [OReject c]
+                   end) by reflexivity.
+      destruct (rfc_step rl (cfg_accept_unmasked cfg) (cfg_max_frame_size cfg) (cfg_max_message_size cfg) a f)
+        as [a'|m a'|m|c].
+      * destruct HC as [-> [HI1 [HP1 HM1]]].
+        assert (HM1' : (Mm x1 w1 <= Mm x0 w0)%nat) by lia.
+        apply (loop_concl_shift rl cfg x0 w0 x1 w1 r x' w' a (f :: fs') t a' fs' HE HM1').
+        apply (IH x1 w1 a' fs' t r x' w' HI1); [lia|exact EL].
+      * destruct HC as [-> [HI1 [HP1 HM1]]]. injection EL as <- <- <-.
+        right; left. exists m. split; [reflexivity|]. split; [exact Sh|]. exists a', fs'. auto.
+      * subst rm. injection EL as <- <- <-. right; right. exists (OMsg m). split; [reflexivity|].
+        split; [|exact HE]. intros m' H. injection H as <-. exact Sh.
+      * destruct HC as [e [-> Hc]]. injection EL as <- <- <-. right; right.
+        exists (OReject c). split; [apply outcome_of_reject; exact Hc|]. split; [discriminate|exact HE].
+Qed.
+
+(** ** C.8 successive reads *)
+
+(* the non-WouldBlock results of n successive reads, up to and including the first error or Close *)
+Fixpoint reads (n : nat) (x : ctx) (w : world) : list (res message) :=
+  match n with
+  | O => []
+  | S n' =>
+      let '(r, x', w') := read x w in
+      match r with
+      | RErr (EIo WouldBlock) => reads n' x' w'
+      | ROk m => ROk m :: (if is_close m then [] else reads n' x' w')
+      | _ => [r]
+      end
+  end.
+
+Theorem reads_sim rl cfg : forall n x w a fs t,
+  Inv rl cfg x w a fs t -> (Mm x w < n)%nat ->
+  map outcome_of (reads n x w) = map Some (spec_outcomes rl cfg a fs t).
+Proof.
+  induction n as [|n IH]; intros x w a fs t HI HM; [lia|].
+  cbn [reads]. unfold read.
+  assert (Hst : x_state x = Active) by (destruct HI as [X _]; exact X).
+  assert (Hnz : hdr_nz (x_codec x)) by (destruct HI as [_ [_ [_ [_ [_ [X _]]]]]]; exact X).
+  rewrite Hst. cbn [is_terminated].
+  destruct (read_loop _ x w) as [[r x'] w'] eqn:EL.
+  assert (HP : (Pm x w < S (length (c_in (x_codec x)) + rd_bytes (w_rds w)))%nat).
+  { unfold Pm. rewrite (pot_nz _ Hnz). lia. }
+  destruct (loop_sim rl cfg _ _ _ _ _ _ _ _ _ HI HP EL)
+    as [[-> [a' [fs' [Hi [He Hm]]]]]|[[m [-> [Hc [a' [fs' [Hi [He Hm]]]]]]]|[o [Ho [Hc He]]]]].
+  - rewrite He. apply IH; [exact Hi|lia].
+  - rewrite Hc, He. cbn [map outcome_of]. f_equal. apply IH; [exact Hi|lia].
+  - rewrite He. destruct r as [m|e|s|].
+    + rewrite (Hc m eq_refl). cbn [map]. rewrite Ho. reflexivity.
+    + destruct e as [| |k| sz mx |p|fr|]; try (cbn [map]; rewrite Ho; reflexivity).
+      destruct k; try (cbn [map]; rewrite Ho; reflexivity). discriminate Ho.
+    + discriminate Ho.
+    + discriminate Ho.
+Qed.
+
+(* fewer reads than needed: what is observed is a prefix of what the specification prescribes *)
+Theorem reads_prefix rl cfg : forall n x w a fs t,
+  Inv rl cfg x w a fs t ->
+  exists rest, map Some (spec_outcomes rl cfg a fs t) = map outcome_of (reads n x w) ++ rest.
+Proof.
+  induction n as [|n IH]; intros x w a fs t HI; [eexists; reflexivity|].
+  cbn [reads]. unfold read.
+  assert (Hst : x_state x = Active) by (destruct HI as [X _]; exact X).
+  assert (Hnz : hdr_nz (x_codec x)) by (destruct HI as [_ [_ [_ [_ [_ [X _]]]]]]; exact X).
+  rewrite Hst. cbn [is_terminated].
+  destruct (read_loop _ x w) as [[r x'] w'] eqn:EL.
+  assert (HP : (Pm x w < S (length (c_in (x_codec x)) + rd_bytes (w_rds w)))%nat).
+  { unfold Pm. rewrite (pot_nz _ Hnz). lia. }
+  destruct (loop_sim rl cfg _ _ _ _ _ _ _ _ _ HI HP EL)
+    as [[-> [a' [fs' [Hi [He Hm]]]]]|[[m [-> [Hc [a' [fs' [Hi [He Hm]]]]]]]|[o [Ho [Hc He]]]]].
+  - rewrite He. exact (IH _ _ _ _ _ Hi).
+  - rewrite Hc, He. destruct (IH _ _ _ _ _ Hi) as [rest Hr]. exists rest.
+    cbn [map outcome_of app]. rewrite Hr. reflexivity.
+  - rewrite He. exists []. rewrite app_nil_r. destruct r as [m|e|s|].
+    + rewrite (Hc m eq_refl). cbn [map]. rewrite Ho. reflexivity.
+    + destruct e as [| |k| sz mx |p|fr|]; try (cbn [map]; rewrite Ho; reflexivity).
+      destruct k; try (cbn [map]; rewrite Ho; reflexivity). discriminate Ho.
+    + discriminate Ho.
+    + discriminate Ho.
+Qed.
+
+(* the same through the operation interface *)
+Fixpoint observe (rs : list op_result) : list (res message) :=
+  match rs with
+  | [] => []
+  | ResMsg (RErr (EIo WouldBlock)) :: t => observe t
+  | ResMsg (ROk m) :: t => ROk m :: (if is_close m then [] else observe t)
+  | ResMsg r :: _ => [r]
+  | _ :: t => observe t
+  end.
+
+Definition op_results (x : ctx) (ops : list op) (w : world) : list op_result :=
+  map fst (fst (fst (run_ops x ops w))).
+
+Lemma observe_reads : forall n x w, observe (op_results x (repeat OpRead n) w) = reads n x w.
+Proof.
+  induction n as [|n IH]; intros x w; [reflexivity|].
+  unfold op_results. cbn [repeat run_ops run_op reads].
+  destruct (read x w) as [[r x'] w'].
+  specialize (IH x' w'). unfold op_results in IH.
+  destruct (run_ops x' (repeat OpRead n) w') as [[rs x2] w2].
+  cbn [fst map observe] in *.
+  destruct r as [m|e|s|]; try reflexivity.
+  - rewrite IH. reflexivity.
+  - destruct e as [| |k| sz mx |p|fr|]; try reflexivity. destruct k; try reflexivity. exact IH.
+Qed.
+
+(** ** C.9 the main theorem *)
+
+Lemma Inv_init rl cfg part x w :
+  ctx_new rl part cfg = Some x -> benign w ->
+  wf_bytes (part ++ sched_data (w_rds w)) = true -> sched_end (w_rds w) = TEof ->
+  blen (part ++ sched_data (w_rds w)) < two64 ->
+  Inv rl cfg x w None (fst (rfc_frames (part ++ sched_data (w_rds w))))
+                      (snd (rfc_frames (part ++ sched_data (w_rds w)))) /\
+  Mm x w = (length part + rd_bytes (w_rds w) + length (w_rds w))%nat.
+Proof.
+  unfold ctx_new. destruct (config_valid cfg); [|discriminate].
+  intros H Hb Hwf Hend Hlen. injection H as <-.
+  destruct (rfc_frames_facts (part ++ sched_data (w_rds w))) as [F1 F2].
+  split.
+  - unfold Inv. cbn [x_state x_role x_cfg x_incomplete x_codec acc_rel partial_len].
+    split; [reflexivity|]. split; [reflexivity|]. split; [reflexivity|]. split; [exact I|].
+    split.
+    { unfold sview, view. cbn [c_hdr c_in set_limits codec_new ref_from].
+      rewrite sched_term_end, Hend. cbn [term_res]. apply ref_all_rfc. exact Hwf. }
+    split; [exact I|]. split; [exact Hb|]. split; [exact F1|]. lia.
+  - unfold Mm, mu, buffered, hdr_bit. cbn [x_codec c_hdr c_in set_limits codec_new]. lia.
+Qed.
+
+Theorem read_refines_rfc rl cfg part x w n :
+  ctx_new rl part cfg = Some x -> benign w ->
+  wf_bytes (part ++ sched_data (w_rds w)) = true -> sched_end (w_rds w) = TEof ->
+  blen (part ++ sched_data (w_rds w)) < two64 ->
+  (length part + rd_bytes (w_rds w) + length (w_rds w) < n)%nat ->
+  map outcome_of (observe (op_results x (repeat OpRead n) w)) =
+  map Some (rfc_read rl (cfg_accept_unmasked cfg) (cfg_max_frame_size cfg) (cfg_max_message_size cfg)
+                     (part ++ sched_data (w_rds w))).
+Proof.
+  intros Hx Hb Hwf Hend Hlen Hn.
+  destruct (Inv_init rl cfg part x w Hx Hb Hwf Hend Hlen) as [HI HM].
+  rewrite observe_reads, (reads_sim rl cfg n x w _ _ _ HI) by lia.
+  unfold spec_outcomes, rfc_read. destruct (rfc_frames (part ++ sched_data (w_rds w))); reflexivity.
+Qed.
+
+(* any number of reads: a prefix *)
+Theorem read_prefix_rfc rl cfg part x w n :
+  ctx_new rl part cfg = Some x -> benign w ->
+  wf_bytes (part ++ sched_data (w_rds w)) = true -> sched_end (w_rds w) = TEof ->
+  blen (part ++ sched_data (w_rds w)) < two64 ->
+  exists rest,
+    map Some (rfc_read rl (cfg_accept_unmasked cfg) (cfg_max_frame_size cfg) (cfg_max_message_size cfg)
+                       (part ++ sched_data (w_rds w))) =
+    map outcome_of (observe (op_results x (repeat OpRead n) w)) ++ rest.
+Proof.
+  intros Hx Hb Hwf Hend Hlen.
+  destruct (Inv_init rl cfg part x w Hx Hb Hwf Hend Hlen) as [HI _].
+  destruct (reads_prefix rl cfg n x w _ _ _ HI) as [rest Hr]. exists rest.
+  rewrite observe_reads, <- Hr.
+  unfold spec_outcomes, rfc_read. destruct (rfc_frames (part ++ sched_data (w_rds w))); reflexivity.
+Qed.
+
+(* the main theorem phrased with rfc_assemble: the items, then — if neither a Reject nor a Close stopped the
+   reading — a header-level rejection of the truncated last frame, or the end of the stream *)
+Definition rfc_ending (mfs : option N) (t : tail) : outcome :=
+  match rfc_tail mfs t with Some c => OReject c | None => OEnd end.
+
+Theorem read_refines_assemble rl cfg part x w n :
+  ctx_new rl part cfg = Some x -> benign w ->
+  wf_bytes (part ++ sched_data (w_rds w)) = true -> sched_end (w_rds w) = TEof ->
+  blen (part ++ sched_data (w_rds w)) < two64 ->
+  (length part + rd_bytes (w_rds w) + length (w_rds w) < n)%nat ->
+  let mfs := cfg_max_frame_size cfg in
+  let fs := fst (rfc_frames (part ++ sched_data (w_rds w))) in
+  let t := snd (rfc_frames (part ++ sched_data (w_rds w))) in
+  let run := rfc_run rl (cfg_accept_unmasked cfg) mfs (cfg_max_message_size cfg) None fs in
+  map outcome_of (observe (op_results x (repeat OpRead n) w)) =
+  map Some (map item_outcome (rfc_assemble rl (cfg_accept_unmasked cfg) mfs (cfg_max_message_size cfg) fs)
+            ++ match snd run with Some _ => [rfc_ending mfs t] | None => [] end).
+Proof.
+  intros Hx Hb Hwf Hend Hlen Hn mfs fs t run.
+  rewrite (read_refines_rfc rl cfg part x w n Hx Hb Hwf Hend Hlen Hn). f_equal.
+  unfold rfc_read, rfc_assemble. fold mfs.
+  destruct (rfc_frames (part ++ sched_data (w_rds w))) as [fs0 t0] eqn:Ef.
+  subst fs t run. cbn [fst snd]. rewrite rfc_outcomes_run. fold mfs.
+  destruct (rfc_run rl (cfg_accept_unmasked cfg) mfs (cfg_max_message_size cfg) None fs0) as [is [e|]];
+    cbn [fst snd]; [unfold rfc_ending; destruct (rfc_tail mfs t0); reflexivity|rewrite app_nil_r; reflexivity].
+Qed.
+
+(* ------------------------------------------------------------------------------------------- *)
+(** * D. Corollaries *)
+
+(** ** D.1 the setting of the main theorem, bundled *)
+
+Definition stream_of (part : bytes) (w : world) : bytes := part ++ sched_data (w_rds w).
+
+Definition read_setup (rl : role) (cfg : config) (part : bytes) (x : ctx) (w : world) (n : nat) : Prop :=
+  ctx_new rl part cfg = Some x /\ benign w /\
+  wf_bytes (stream_of part w) = true /\ sched_end (w_rds w) = TEof /\ blen (stream_of part w) < two64 /\
+  (length part + rd_bytes (w_rds w) + length (w_rds w) < n)%nat.
+
+Definition observed (x : ctx) (w : world) (n : nat) : list (option outcome) :=
+  map outcome_of (observe (op_results x (repeat OpRead n) w)).
+
+Definition spec_read (rl : role) (cfg : config) (bs : bytes) : list outcome :=
+  rfc_read rl (cfg_accept_unmasked cfg) (cfg_max_frame_size cfg) (cfg_max_message_size cfg) bs.
+
+Definition spec_step (rl : role) (cfg : config) : partial -> raw_frame -> verdict :=
+  rfc_step rl (cfg_accept_unmasked cfg) (cfg_max_frame_size cfg) (cfg_max_message_size cfg).
+
+Definition spec_run (rl : role) (cfg : config) : partial -> list raw_frame -> list item * option partial :=
+  rfc_run rl (cfg_accept_unmasked cfg) (cfg_max_frame_size cfg) (cfg_max_message_size cfg).
+
+Theorem read_refines_rfc_setup rl cfg part x w n :
+  read_setup rl cfg part x w n -> observed x w n = map Some (spec_read rl cfg (stream_of part w)).
+Proof.
+  intros [H1 [H2 [H3 [H4 [H5 H6]]]]]. exact (read_refines_rfc rl cfg part x w n H1 H2 H3 H4 H5 H6).
+Qed.
+
+(** ** D.2 spec-level composition *)
+
+Lemma rfc_outcomes_app r au mfs mms fs1 : forall a items a' fs2 t,
+  rfc_run r au mfs mms a fs1 = (items, Some a') ->
+  rfc_outcomes r au mfs mms a (fs1 ++ fs2) t = map item_outcome items ++ rfc_outcomes r au mfs mms a' fs2 t.
+Proof.
+  induction fs1 as [|f rest IH]; intros a items a' fs2 t H; cbn [rfc_run app rfc_outcomes] in *.
+  - injection H as <- <-. reflexivity.
+  - destruct (rfc_step r au mfs mms a f) as [a1|m a1|m|c]; try discriminate.
+    + apply IH. exact H.
+    + destruct (rfc_run r au mfs mms a1 rest) as [is e] eqn:Er. injection H as <- ->.
+      cbn [map app item_outcome]. f_equal. apply IH. exact Er.
+Qed.
+
+Lemma rfc_run_app r au mfs mms fs1 : forall a items a' fs2,
+  rfc_run r au mfs mms a fs1 = (items, Some a') ->
+  rfc_run r au mfs mms a (fs1 ++ fs2) =
+  (items ++ fst (rfc_run r au mfs mms a' fs2), snd (rfc_run r au mfs mms a' fs2)).
+Proof.
+  induction fs1 as [|f rest IH]; intros a items a' fs2 H; cbn [rfc_run app] in *.
+  - injection H as <- <-. destruct (rfc_run r au mfs mms a fs2); reflexivity.
+  - destruct (rfc_step r au mfs mms a f) as [a1|m a1|m|c]; try discriminate.
+    + apply IH. exact H.
+    + destruct (rfc_run r au mfs mms a1 rest) as [is e] eqn:Er. injection H as <- ->.
+      rewrite (IH _ _ _ fs2 Er). reflexivity.
+Qed.
+
+(* a run that reaches the end delivered only messages, none of them a Close *)
+Lemma rfc_run_clean r au mfs mms fs : forall a items a',
+  rfc_run r au mfs mms a fs = (items, Some a') ->
+  Forall (fun i => exists m, i = IMsg m /\ is_close m = false) items.
+Proof.
+  induction fs as [|f rest IH]; intros a items a' H; cbn [rfc_run] in H.
+  - injection H as <- _. constructor.
+  - pose proof (rfc_step_shape r au mfs mms a f) as Sh.
+    destruct (rfc_step r au mfs mms a f) as [a1|m a1|m|c]; try discriminate.
+    + exact (IH _ _ _ H).
+    + destruct (rfc_run r au mfs mms a1 rest) as [is e] eqn:Er. injection H as <- ->.
+      constructor; [exists m; auto|exact (IH _ _ _ Er)].
+Qed.
+
+Lemma violation_outcomes r au mfs mms fs1 f fs2 t items a c :
+  rfc_run r au mfs mms None fs1 = (items, Some a) ->
+  rfc_step r au mfs mms a f = VReject c ->
+  rfc_outcomes r au mfs mms None (fs1 ++ f :: fs2) t = map item_outcome items ++ [OReject c].
+Proof.
+  intros H1 H2. rewrite (rfc_outcomes_app _ _ _ _ _ _ _ _ _ t H1). cbn [rfc_outcomes]. rewrite H2. reflexivity.
+Qed.
+
+(** ** D.3 a valid prefix, one offending frame, anything afterwards *)
+
+Theorem violation_observed rl cfg part x w n fs1 f fs2 t items a c :
+  read_setup rl cfg part x w n ->
+  rfc_frames (stream_of part w) = (fs1 ++ f :: fs2, t) ->
+  spec_run rl cfg None fs1 = (items, Some a) ->
+  spec_step rl cfg a f = VReject c ->
+  observed x w n = map Some (map item_outcome items ++ [OReject c]).
+Proof.
+  intros Hs Hf Hr Hv. rewrite (read_refines_rfc_setup _ _ _ _ _ _ Hs). f_equal.
+  unfold spec_read, rfc_read. rewrite Hf. exact (violation_outcomes _ _ _ _ _ _ _ _ _ _ _ Hr Hv).
+Qed.
+
+(* the offending frame is rejected: with class Protocol unless a header-level rule fires first *)
+Definition rejected (rl : role) (cfg : config) (a : partial) (f : raw_frame) : Prop :=
+  exists c, spec_step rl cfg a f = VReject c /\
+            (rfc_header_check (cfg_max_frame_size cfg) (rf_hdr f) = None -> c = KProtocol).
+
+Definition frame_data (f : raw_frame) : bytes :=
+  match rh_key (rf_hdr f) with Some k => rfc_unmask k (rf_payload f) | None => rf_payload f end.
+
+Lemma rule_reserved_opcode rl cfg a f : reserved_opcode (rh_opcode (rf_hdr f)) = true -> rejected rl cfg a f.
+Proof.
+  intros H. exists KProtocol. split; [|reflexivity].
+  unfold spec_step, rfc_step, rfc_header_check. rewrite H. reflexivity.
+Qed.
+
+Lemma rule_rsv rl cfg a f :
+  rh_rsv1 (rf_hdr f) || rh_rsv2 (rf_hdr f) || rh_rsv3 (rf_hdr f) = true -> rejected rl cfg a f.
+Proof.
+  intros H. unfold rejected, spec_step, rfc_step. cbv zeta.
+  destruct (rfc_header_check (cfg_max_frame_size cfg) (rf_hdr f)) as [c|].
+  - exists c. split; [reflexivity|discriminate].
+  - exists KProtocol. split; [|reflexivity]. destruct (negb _); [reflexivity|]. rewrite H. reflexivity.
+Qed.
+
+Lemma rule_mask_direction rl cfg a f :
+  mask_direction_ok rl (cfg_accept_unmasked cfg) (rh_key (rf_hdr f)) = false -> rejected rl cfg a f.
+Proof.
+  intros H. unfold rejected, spec_step, rfc_step. cbv zeta.
+  destruct (rfc_header_check (cfg_max_frame_size cfg) (rf_hdr f)) as [c|].
+  - exists c. split; [reflexivity|discriminate].
+  - exists KProtocol. split; [|reflexivity]. rewrite H. reflexivity.
+Qed.
+
+Lemma rule_control rl cfg a f :
+  8 <= rh_opcode (rf_hdr f) -> rh_fin (rf_hdr f) = false \/ 125 < blen (rf_payload f) -> rejected rl cfg a f.
+Proof.
+  intros Hop H. unfold rejected, spec_step, rfc_step. cbv zeta.
+  destruct (rfc_header_check (cfg_max_frame_size cfg) (rf_hdr f)) as [c|].
+  - exists c. split; [reflexivity|discriminate].
+  - exists KProtocol. split; [|reflexivity]. destruct (negb _); [reflexivity|].
+    destruct (_ || _ || _); [reflexivity|].
+    destruct (8 <=? rh_opcode (rf_hdr f)) eqn:E8; [|lia].
+    pose proof (unmask_data_len (rh_key (rf_hdr f)) (rf_payload f)) as Hd.
+    destruct (negb (rh_fin (rf_hdr f)) || _) eqn:E; [reflexivity|]. exfalso.
+    apply orb_false_iff in E. destruct E as [E1 E2].
+    assert (E3 : (125 <? blen (rf_payload f)) = false) by (rewrite <- Hd; exact E2).
+    destruct H as [H|H]; [rewrite H in E1; discriminate|lia].
+Qed.
+
+Lemma rule_control_fin rl cfg a f :
+  8 <= rh_opcode (rf_hdr f) -> rh_fin (rf_hdr f) = false -> rejected rl cfg a f.
+Proof. intros H1 H2. apply rule_control; auto. Qed.
+
+Lemma rule_control_size rl cfg a f :
+  8 <= rh_opcode (rf_hdr f) -> 125 < blen (rf_payload f) -> rejected rl cfg a f.
+Proof. intros H1 H2. apply rule_control; auto. Qed.
+
+Lemma rule_orphan_continuation rl cfg f : rh_opcode (rf_hdr f) = 0 -> rejected rl cfg None f.
+Proof.
+  intros Hop. unfold rejected, spec_step, rfc_step. cbv zeta.
+  destruct (rfc_header_check (cfg_max_frame_size cfg) (rf_hdr f)) as [c|].
+  - exists c. split; [reflexivity|discriminate].
+  - exists KProtocol. split; [|reflexivity]. destruct (negb _); [reflexivity|].
+    destruct (_ || _ || _); [reflexivity|]. rewrite Hop. reflexivity.
+Qed.
+
+Lemma rule_nested_data rl cfg p f :
+  rh_opcode (rf_hdr f) = 1 \/ rh_opcode (rf_hdr f) = 2 -> rejected rl cfg (Some p) f.
+Proof.
+  intros Hop. unfold rejected, spec_step, rfc_step. cbv zeta.
+  destruct (rfc_header_check (cfg_max_frame_size cfg) (rf_hdr f)) as [c|].
+  - exists c. split; [reflexivity|discriminate].
+  - exists KProtocol. split; [|reflexivity]. destruct (negb _); [reflexivity|].
+    destruct (_ || _ || _); [reflexivity|]. destruct Hop as [-> | ->]; reflexivity.
+Qed.
+
+(* a malformed close payload: one byte (Protocol), or a reason that is not UTF-8 (Utf8) — always an error *)
+Lemma rule_close_payload rl cfg a f :
+  rh_opcode (rf_hdr f) = 8 ->
+  (blen (rf_payload f) = 1 \/ exists c1 c2 reason, frame_data f = c1 :: c2 :: reason /\ utf8_valid reason = false) ->
+  exists c, spec_step rl cfg a f = VReject c.
+Proof.
+  intros Hop H. unfold spec_step, rfc_step. cbv zeta.
+  destruct (rfc_header_check (cfg_max_frame_size cfg) (rf_hdr f)) as [c|]; [eexists; reflexivity|].
+  destruct (negb _); [eexists; reflexivity|]. destruct (_ || _ || _); [eexists; reflexivity|].
+  rewrite Hop. change (8 <=? 8) with true. change (8 =? 9) with false. change (8 =? 10) with false. cbv iota.
+  destruct (negb _ || _); [eexists; reflexivity|].
+  pose proof (unmask_data_len (rh_key (rf_hdr f)) (rf_payload f)) as Hd.
+  change (blen (frame_data f) = blen (rf_payload f)) in Hd.
+  change (exists c, rfc_close (frame_data f) = VReject c).
+  unfold rfc_close. destruct H as [H|[c1 [c2 [reason [-> Hu]]]]].
+  - rewrite H in Hd. destruct (frame_data f) as [|b [|b' r']]; unfold blen in Hd; cbn [length] in Hd; try lia.
+    eexists; reflexivity.
+  - rewrite Hu. eexists; reflexivity.
+Qed.
+
+(** ** D.4 control frames interleaved in a fragmented message *)
+
+(* the frame breaks no header, mask or RSV rule *)
+Definition passes (rl : role) (cfg : config) (f : raw_frame) : Prop :=
+  rfc_header_check (cfg_max_frame_size cfg) (rf_hdr f) = None /\
+  mask_direction_ok rl (cfg_accept_unmasked cfg) (rh_key (rf_hdr f)) = true /\
+  rh_rsv1 (rf_hdr f) || rh_rsv2 (rf_hdr f) || rh_rsv3 (rf_hdr f) = false.
+
+Lemma spec_step_passes rl cfg a f : passes rl cfg f ->
+  spec_step rl cfg a f =
+  let op := rh_opcode (rf_hdr f) in
+  let data := frame_data f in
+  let fin := rh_fin (rf_hdr f) in
+  if 8 <=? op then
+    if negb fin || (125 <? blen data) then VReject KProtocol
+    else if op =? 9 then VDeliver (MPing data) a
+    else if op =? 10 then VDeliver (MPong data) a
+    else rfc_close data
+  else if op =? 0 then
+    match a with
+    | None => VReject KProtocol
+    | Some (k, acc) => rfc_fragment (cfg_max_message_size cfg) k (acc ++ data) fin
+    end
+  else
+    match a with
+    | Some _ => VReject KProtocol
+    | None => rfc_fragment (cfg_max_message_size cfg) (if op =? 1 then KText else KBinary) data fin
+    end.
+Proof.
+  intros [H1 [H2 H3]]. unfold spec_step, rfc_step. cbv zeta. rewrite H1, H2, H3. reflexivity.
+Qed.
+
+(* a Ping or Pong that is well-formed; a non-final continuation frame *)
+Definition is_ctl (rl : role) (cfg : config) (f : raw_frame) : Prop :=
+  passes rl cfg f /\ (rh_opcode (rf_hdr f) = 9 \/ rh_opcode (rf_hdr f) = 10) /\
+  rh_fin (rf_hdr f) = true /\ blen (rf_payload f) <= 125.
+Definition is_cont (rl : role) (cfg : config) (f : raw_frame) : Prop :=
+  passes rl cfg f /\ rh_opcode (rf_hdr f) = 0 /\ rh_fin (rf_hdr f) = false.
+
+Definition ctl_msg (f : raw_frame) : message :=
+  if rh_opcode (rf_hdr f) =? 9 then MPing (frame_data f) else MPong (frame_data f).
+
+(* the control messages, and the data, of a mix of control and continuation frames *)
+Definition mid_msgs (mid : list raw_frame) : list item :=
+  flat_map (fun f => if 8 <=? rh_opcode (rf_hdr f) then [IMsg (ctl_msg f)] else []) mid.
+Definition mid_data (mid : list raw_frame) : bytes :=
+  flat_map (fun f => if 8 <=? rh_opcode (rf_hdr f) then [] else frame_data f) mid.
+
+Lemma frame_data_len f : blen (frame_data f) = blen (rf_payload f).
+Proof. apply unmask_data_len. Qed.
+
+Lemma over_mono lim n m : n <= m -> over lim m = false -> over lim n = false.
+Proof. rewrite !over_limit. lia. Qed.
+
+Lemma utf8_prefix_app p q : utf8_prefix (p ++ q) = true -> utf8_prefix p = true.
+Proof.
+  rewrite !utf8_prefix_iff. intros [t V]. exists (q ++ t). rewrite app_assoc. exact V.
+Qed.
+
+Definition acc_fits (cfg : config) (k : kind) (all : bytes) : Prop :=
+  over (cfg_max_message_size cfg) (blen all) = false /\ (k = KText -> utf8_prefix all = true).
+
+Lemma acc_fits_prefix cfg k (p q : bytes) : acc_fits cfg k (p ++ q) -> acc_fits cfg k p.
+Proof.
+  intros [H1 H2]. split.
+  - apply (over_mono _ (blen p) (blen (p ++ q))); [rewrite blen_app'; lia|exact H1].
+  - intros Hk. exact (utf8_prefix_app _ _ (H2 Hk)).
+Qed.
+
+Lemma fragment_more cfg k (all : bytes) : acc_fits cfg k all ->
+  rfc_fragment (cfg_max_message_size cfg) k all false = VNext (Some (k, all)).
+Proof.
+  intros [H1 H2]. unfold rfc_fragment. rewrite H1. destruct k; [|reflexivity]. rewrite (H2 eq_refl). reflexivity.
+Qed.
+
+Lemma mid_cons f mid :
+  mid_msgs (f :: mid) = (if 8 <=? rh_opcode (rf_hdr f) then [IMsg (ctl_msg f)] else []) ++ mid_msgs mid /\
+  mid_data (f :: mid) = (if 8 <=? rh_opcode (rf_hdr f) then [] else frame_data f) ++ mid_data mid.
+Proof. split; reflexivity. Qed.
+
+Lemma run_mid rl cfg k mid : Forall (fun f => is_ctl rl cfg f \/ is_cont rl cfg f) mid ->
+  forall acc : bytes, acc_fits cfg k (acc ++ mid_data mid) ->
+  spec_run rl cfg (Some (k, acc)) mid = (mid_msgs mid, Some (Some (k, acc ++ mid_data mid))).
+Proof.
+  induction 1 as [|f mid Hf _ IH]; intros acc Hfit.
+  - cbn. rewrite app_nil_r. reflexivity.
+  - unfold spec_run in *. cbn [rfc_run]. fold (spec_step rl cfg (Some (k, acc)) f).
+    destruct Hf as [[Hp [Hop [Hfin Hlen]]]|[Hp [Hop Hfin]]].
+    + rewrite (spec_step_passes _ _ _ _ Hp). cbv zeta. rewrite Hfin, frame_data_len.
+      assert (H8 : (8 <=? rh_opcode (rf_hdr f)) = true) by (destruct Hop as [-> | ->]; reflexivity).
+      assert (H125 : (125 <? blen (rf_payload f)) = false) by lia.
+      rewrite H8, H125. cbn [negb orb].
+      assert (Hm : (if rh_opcode (rf_hdr f) =? 9 then VDeliver (MPing (frame_data f)) (Some (k, acc))
+                    else if rh_opcode (rf_hdr f) =? 10 then VDeliver (MPong (frame_data f)) (Some (k, acc))
+                    else rfc_close (frame_data f)) = VDeliver (ctl_msg f) (Some (k, acc))).
+      { unfold ctl_msg. destruct Hop as [-> | ->]; reflexivity. }
+      rewrite Hm. destruct (mid_cons f mid) as [M1 M2]. rewrite M1, M2 in *. rewrite H8 in M1, M2, Hfit |- *.
+      cbn [app] in *. rewrite (IH acc Hfit). reflexivity.
+    + rewrite (spec_step_passes _ _ _ _ Hp). cbv zeta. rewrite Hop, Hfin.
+      change (8 <=? 0) with false. change (0 =? 0) with true. cbv iota.
+      destruct (mid_cons f mid) as [M1 M2]. rewrite M1, M2 in *. rewrite Hop in M1, M2, Hfit |- *.
+      change (8 <=? 0) with false in *. cbv iota in *. cbn [app]. rewrite app_assoc in Hfit.
+      rewrite (fragment_more cfg k _ (acc_fits_prefix _ _ _ _ Hfit)).
+      etransitivity; [exact (IH _ Hfit)|].
+      f_equal. f_equal. f_equal. f_equal. symmetry. apply app_assoc.
+Qed.
+
+Definition kind_of_op (op : N) : kind := if op =? 1 then KText else KBinary.
+Definition data_msg (k : kind) (all : bytes) : message :=
+  match k with KText => MText all | KBinary => MBinary all end.
+
+Theorem interleaved_run rl cfg first mid last :
+  passes rl cfg first -> (rh_opcode (rf_hdr first) = 1 \/ rh_opcode (rf_hdr first) = 2) ->
+  rh_fin (rf_hdr first) = false ->
+  Forall (fun f => is_ctl rl cfg f \/ is_cont rl cfg f) mid ->
+  passes rl cfg last -> rh_opcode (rf_hdr last) = 0 -> rh_fin (rf_hdr last) = true ->
+  let k := kind_of_op (rh_opcode (rf_hdr first)) in
+  let all := frame_data first ++ mid_data mid ++ frame_data last in
+  over (cfg_max_message_size cfg) (blen all) = false ->
+  (k = KText -> utf8_valid all = true) ->
+  spec_run rl cfg None (first :: mid ++ [last]) = (mid_msgs mid ++ [IMsg (data_msg k all)], Some None).
+Proof.
+  intros Hp1 Hop1 Hfin1 Hmid Hp2 Hop2 Hfin2 k all Hov Hutf.
+  assert (Hfit : acc_fits cfg k all).
+  { split; [exact Hov|]. intros Hk. apply utf8_valid_prefix. exact (Hutf Hk). }
+  unfold all in Hfit. rewrite app_assoc in Hfit.
+  pose proof (acc_fits_prefix _ _ _ _ Hfit) as Hfit1.
+  pose proof (acc_fits_prefix _ _ _ _ Hfit1) as Hfit0.
+  unfold spec_run. cbn [rfc_run app]. fold (spec_step rl cfg None first).
+  rewrite (spec_step_passes _ _ _ _ Hp1). cbv zeta. rewrite Hfin1.
+  assert (H8 : (8 <=? rh_opcode (rf_hdr first)) = false) by (destruct Hop1 as [-> | ->]; reflexivity).
+  assert (H0 : (rh_opcode (rf_hdr first) =? 0) = false) by (destruct Hop1 as [-> | ->]; reflexivity).
+  rewrite H8, H0. fold (kind_of_op (rh_opcode (rf_hdr first))). fold k.
+  rewrite (fragment_more cfg k _ Hfit0).
+  fold (spec_run rl cfg (Some (k, frame_data first)) (mid ++ [last])).
+  unfold spec_run. rewrite (rfc_run_app _ _ _ _ _ _ _ _ [last] (run_mid rl cfg k mid Hmid _ Hfit1)).
+  cbn [rfc_run]. fold (spec_step rl cfg (Some (k, frame_data first ++ mid_data mid)) last).
+  rewrite (spec_step_passes _ _ _ _ Hp2). cbv zeta. rewrite Hop2, Hfin2.
+  change (8 <=? 0) with false. change (0 =? 0) with true. cbv iota.
+  unfold rfc_fragment. rewrite <- app_assoc. fold all. rewrite Hov.
+  destruct k eqn:Ek.
+  - rewrite (Hutf eq_refl). reflexivity.
+  - reflexivity.
+Qed.
+
+Theorem interleaved_observed rl cfg part x w n fs0 items0 first mid last fs2 t :
+  read_setup rl cfg part x w n ->
+  rfc_frames (stream_of part w) = (fs0 ++ (first :: mid ++ [last]) ++ fs2, t) ->
+  spec_run rl cfg None fs0 = (items0, Some None) ->
+  passes rl cfg first -> (rh_opcode (rf_hdr first) = 1 \/ rh_opcode (rf_hdr first) = 2) ->
+  rh_fin (rf_hdr first) = false ->
+  Forall (fun f => is_ctl rl cfg f \/ is_cont rl cfg f) mid ->
+  passes rl cfg last -> rh_opcode (rf_hdr last) = 0 -> rh_fin (rf_hdr last) = true ->
+  let k := kind_of_op (rh_opcode (rf_hdr first)) in
+  let all := frame_data first ++ mid_data mid ++ frame_data last in
+  over (cfg_max_message_size cfg) (blen all) = false ->
+  (k = KText -> utf8_valid all = true) ->
+  observed x w n =
+  map Some (map item_outcome items0 ++ map item_outcome (mid_msgs mid) ++ [OMsg (data_msg k all)]
+            ++ spec_outcomes rl cfg None fs2 t).
+Proof.
+  intros Hs Hf Hr0 Hp1 Hop1 Hfin1 Hmid Hp2 Hop2 Hfin2 k all Hov Hutf.
+  rewrite (read_refines_rfc_setup _ _ _ _ _ _ Hs). f_equal.
+  unfold spec_read, rfc_read. rewrite Hf.
+  pose proof (interleaved_run rl cfg first mid last Hp1 Hop1 Hfin1 Hmid Hp2 Hop2 Hfin2 Hov Hutf) as Hrun.
+  unfold spec_run in *.
+  rewrite (rfc_outcomes_app _ _ _ _ _ _ _ _ _ t Hr0).
+  rewrite (rfc_outcomes_app _ _ _ _ _ _ _ _ _ t Hrun).
+  rewrite map_app. cbn [map item_outcome]. rewrite <- !app_assoc. reflexivity.
+Qed.
+
+(** ** D.5 the declarative framing composes: frames, then anything *)
+
+Lemma rfc_header_app bs h rest more :
+  rfc_header bs = Some (h, rest) -> rfc_header (bs ++ more) = Some (h, rest ++ more).
+Proof.
+  destruct bs as [|b0 [|b1 r]]; try discriminate. cbn [app]. unfold rfc_header.
+  set (ext := if b1 mod 128 =? 126 then 2%nat else if b1 mod 128 =? 127 then 8%nat else 0%nat).
+  destruct (Nat.ltb (length r) ext) eqn:El; [discriminate|]. apply Nat.ltb_ge in El.
+  assert (El' : Nat.ltb (length (r ++ more)) ext = false) by (apply Nat.ltb_ge; rewrite app_length; lia).
+  rewrite El'.
+  assert (Hf : firstn ext (r ++ more) = firstn ext r).
+  { rewrite firstn_app. replace (ext - length r)%nat with 0%nat by lia. cbn [firstn]. apply app_nil_r. }
+  assert (Hs : skipn ext (r ++ more) = skipn ext r ++ more).
+  { rewrite skipn_app. replace (ext - length r)%nat with 0%nat by lia. reflexivity. }
+  rewrite Hf, Hs. destruct (128 <=? b1).
+  - destruct (skipn ext r) as [|a [|b [|c [|d r2]]]]; try discriminate.
+    intros H. injection H as <- <-. reflexivity.
+  - intros H. injection H as <- <-. reflexivity.
+Qed.
+
+Lemma rfc_frames_app_aux : forall n bs1, (length bs1 <= n)%nat -> forall fs1 bs2,
+  rfc_frames bs1 = (fs1, TBytes []) ->
+  rfc_frames (bs1 ++ bs2) = (fs1 ++ fst (rfc_frames bs2), snd (rfc_frames bs2)).
+Proof.
+  induction n as [|n IH]; intros bs1 Hn fs1 bs2 H.
+  - destruct bs1; [|cbn [length] in Hn; lia]. cbn in H. injection H as <-.
+    cbn [app]. destruct (rfc_frames bs2); reflexivity.
+  - rewrite rfc_frames_eq in H. destruct (rfc_header bs1) as [[h rest]|] eqn:Eh.
+    + destruct (rfc_header_facts _ _ _ Eh) as [Hl _].
+      destruct (rh_len h <=? blen rest) eqn:El; [|discriminate].
+      destruct (rfc_frames (dropN (rh_len h) rest)) as [fs' t'] eqn:Er.
+      injection H as <- ->.
+      rewrite rfc_frames_eq, (rfc_header_app _ _ _ bs2 Eh).
+      assert (El' : (rh_len h <=? blen (rest ++ bs2)) = true) by (rewrite blen_app'; lia).
+      rewrite El', CodecReadP.dropN_app_le, CodecReadP.takeN_app_le by lia.
+      pose proof (length_dropN (rh_len h) rest) as Hd.
+      rewrite (IH (dropN (rh_len h) rest)) with (fs1 := fs'); [reflexivity|lia|exact Er].
+    + injection H as <- ->. cbn [app]. destruct (rfc_frames bs2); reflexivity.
+Qed.
+
+Theorem rfc_frames_app bs1 bs2 fs1 :
+  rfc_frames bs1 = (fs1, TBytes []) ->
+  rfc_frames (bs1 ++ bs2) = (fs1 ++ fst (rfc_frames bs2), snd (rfc_frames bs2)).
+Proof. exact (rfc_frames_app_aux (length bs1) bs1 (le_n _) fs1 bs2). Qed.
+
+(* the byte-level form of D.3: a valid prefix, the bytes of one offending frame, then any bytes *)
+Theorem violation_observed_bytes rl cfg part x w n bs1 bf rest fs1 f items a c :
+  read_setup rl cfg part x w n ->
+  stream_of part w = bs1 ++ bf ++ rest ->
+  rfc_frames bs1 = (fs1, TBytes []) -> rfc_frames bf = ([f], TBytes []) ->
+  spec_run rl cfg None fs1 = (items, Some a) ->
+  spec_step rl cfg a f = VReject c ->
+  observed x w n = map Some (map item_outcome items ++ [OReject c]).
+Proof.
+  intros Hs Hb H1 Hf Hr Hv.
+  apply (violation_observed rl cfg part x w n fs1 f (fst (rfc_frames rest)) (snd (rfc_frames rest)) items a c Hs);
+    [|exact Hr|exact Hv].
+  rewrite Hb, (rfc_frames_app _ _ _ H1), (rfc_frames_app _ _ _ Hf). reflexivity.
+Qed.
+
+(** ** D.6 one read_message_frame step on a delivered frame *)
+
+Theorem rmf_step_refines x w f c' rds' a rm x' w' :
+  x_state x = Active ->
+  rfl (limit_of (cfg_max_frame_size (x_cfg x))) (w_rds w) (x_codec x) =
+    (ROk (Some (hdr_of (rf_hdr f), rh_len (rf_hdr f), rf_payload f)), c', rds') ->
+  raw_of_check (limit_of (cfg_max_frame_size (x_cfg x))) (rf_hdr f) = None ->
+  frame_ok f -> acc_rel (x_incomplete x) a -> partial_len a + blen (rf_payload f) < two64 ->
+  read_message_frame x w = (rm, x', w') ->
+  step_ok (set_codec x c')
+    (rfc_step (x_role x) (cfg_accept_unmasked (x_cfg x)) (cfg_max_frame_size (x_cfg x))
+              (cfg_max_message_size (x_cfg x)) a f)
+    (rm, x') /\ w_rds w' = rds'.
+Proof.
+  intros Hst Er Hck Hf Hacc Hsz Em.
+  rewrite (rmf_active x w Hst), Er in Em. cbv zeta in Em.
+  set (x1 := set_state (set_codec x c') Active) in *.
+  assert (Hx1 : x1 = set_codec x c') by (unfold x1, set_state, set_codec; cbn; rewrite Hst; reflexivity).
+  pose proof (step_refines (cfg_max_frame_size (x_cfg x)) x1 f a Hf eq_refl Hacc Hsz) as S.
+  change (x_role x1) with (x_role x) in S. change (x_cfg x1) with (x_cfg x) in S.
+  unfold model_frame in S. rewrite Hck in S.
+  change (x_role x1) with (x_role x) in S. change (x_cfg x1) with (x_cfg x) in S.
+  rewrite <- Hx1.
+  destruct (post_frame (role_eqb (x_role x) Server) (cfg_accept_unmasked (x_cfg x)) _) as [[fr|]|e|s|].
+  - destruct (Utf8P.on_frame x1 fr) as [r2 x2]. injection Em as <- <- <-. split; [exact S|reflexivity].
+  - injection Em as <- <- <-. split; [exact S|reflexivity].
+  - injection Em as <- <- <-. split; [exact S|reflexivity].
+  - injection Em as <- <- <-. split; [exact S|reflexivity].
+  - injection Em as <- <- <-. split; [exact S|reflexivity].
+Qed.
+
+(** ** D.7 the per-rule corollaries, lifted *)
+
+Theorem rejected_observed rl cfg part x w n fs1 f fs2 t items a :
+  read_setup rl cfg part x w n ->
+  rfc_frames (stream_of part w) = (fs1 ++ f :: fs2, t) ->
+  spec_run rl cfg None fs1 = (items, Some a) ->
+  rejected rl cfg a f ->
+  exists c, observed x w n = map Some (map item_outcome items ++ [OReject c]) /\
+            (rfc_header_check (cfg_max_frame_size cfg) (rf_hdr f) = None -> c = KProtocol).
+Proof.
+  intros Hs Hf Hr [c [Hv Hc]]. exists c. split; [|exact Hc].
+  exact (violation_observed rl cfg part x w n fs1 f fs2 t items a c Hs Hf Hr Hv).
+Qed.
+
+Theorem rejected_observed_any rl cfg part x w n fs1 f fs2 t items a :
+  read_setup rl cfg part x w n ->
+  rfc_frames (stream_of part w) = (fs1 ++ f :: fs2, t) ->
+  spec_run rl cfg None fs1 = (items, Some a) ->
+  (exists c, spec_step rl cfg a f = VReject c) ->
+  exists c, observed x w n = map Some (map item_outcome items ++ [OReject c]).
+Proof.
+  intros Hs Hf Hr [c Hv]. exists c.
+  exact (violation_observed rl cfg part x w n fs1 f fs2 t items a c Hs Hf Hr Hv).
+Qed.
+
+(* the items of a valid prefix are messages, so what is observed is: messages, then one error *)
+Lemma clean_items_outcomes items :
+  Forall (fun i => exists m, i = IMsg m /\ is_close m = false) items ->
+  Forall (fun o => exists m, o = OMsg m) (map item_outcome items).
+Proof.
+  induction 1 as [|i items [m [-> _]] _ IH]; cbn [map item_outcome]; constructor; [exists m; reflexivity|exact IH].
+Qed.
